@@ -633,6 +633,8 @@ if m2.group(1) not in ("<=", "<"):
 take_cmp = {"<=": "CmpLe", "<": "CmpLt"}[m2.group(1)]
 if nows("let addr = walker.get_instruction() - module.base_address();") not in nows(modrs):
     die("mod.rs walk_frame: `addr` is no longer instruction - module base")
+if nows("if walker.get_instruction() < module.base_address() { return None; } let addr =") not in nows(modrs):
+    die("mod.rs walk_frame: the guard `instruction < module base -> None` in front of the subtraction changed")
 parser = open(os.path.join(repo, "breakpad-symbols/src/sym_file/parser.rs")).read()
 m_ = re.search(r"Line::StackCfi\(mut cur\) => \{(.*?)\n            \}", parser, re.S)
 if not m_:
